@@ -31,8 +31,12 @@ MapCases == {[fam |-> "router", kind |-> "map", mapper |-> m, prefix |-> p, name
       \cup {[fam |-> "router", kind |-> "map", mapper |-> r[1], prefix |-> "", name |-> r[2], expected |-> r[3]] : r \in Table}
 RegCases == {[fam |-> "router", kind |-> "reg", mapper |-> m, group |-> g, set |-> s, unknown |-> u] :
                m \in {"http", "rpc"}, g \in {"", "g", "g/h"}, s \in (SUBSET Inventory) \ {{}}, u \in BOOLEAN}
-ConflictCases == {[fam |-> "router", kind |-> "conflict", mapper |-> m, pair |-> p] :
+\* "CtlTwin" / "PshTwin": ONE controller whose methods AaBb and Aa__Bb map to the same name under the http mapper
+\* (table rows 1 and 3) and to different names under the rpc mapper (rows 9 and 11)
+ConflictCases == {[fam |-> "router", kind |-> "conflict", mapper |-> m, pair |-> p, expectconflict |-> (p # "none" /\ (p = "CtlA+Ctl__A" => m = "http"))] :   \* Ctl__A maps onto CtlA only under the http mapper
                m \in {"http", "rpc"}, p \in {"CtlA+Ctl__A", "CtlA+CtlA", "FnCall+FnCall", "PshA+PshA", "none"}}
+            \cup {[fam |-> "router", kind |-> "conflict", mapper |-> m, pair |-> p, expectconflict |-> (m = "http")] :
+               m \in {"http", "rpc"}, p \in {"CtlTwin", "PshTwin"}}
 VARIABLES c, done
 vars == <<c, done>>
 Init == c \in MapCases \cup RegCases \cup ConflictCases /\ done = FALSE
